@@ -729,6 +729,46 @@ def GC.wfX : GC → Bool
   | .s c => c.wfX
   | .union ms => !ms.isEmpty && ms.all GS.wfX
 
+/-- single-valued variant, all four operators: plain `Constraint` atoms; a `MultiConstraint` holds atoms
+with a negative operator (`!=`, `in`, `not in` — what `MultiConstraint.__init__` accepts); unions are
+non-empty.  `wfG` is `wf4` restricted to `==`/`!=` (`frag`). -/
+def GS.wf4 : GS → Bool
+  | .any => true
+  | .empty => true
+  | .atom a => !a.x
+  | .multi x cs => !x && cs.all (fun c => !c.x && c.op != .eq)
+
+def GC.wf4 : GC → Bool
+  | .s c => c.wf4
+  | .union ms => !ms.isEmpty && ms.all GS.wf4
+
+/-- no `MultiConstraint` / `UnionConstraint` of nothing -/
+def GS.nondeg : GS → Bool
+  | .multi _ cs => !cs.isEmpty
+  | _ => true
+
+def GC.nondeg : GC → Bool
+  | .s c => c.nondeg
+  | .union ms => !ms.isEmpty && ms.all GS.nondeg
+
+/-- the one call site where `union` is still wrong (pinned by the test-suite): two `not in` atoms neither of
+whose values contains the other are united to `AnyConstraint` (`Constraint.union`, `ops in ({"!="}, {"not in"})`) -/
+def ncClash (a o : Atom) : Bool :=
+  a.op == .nc && o.op == .nc && !strIn a.value o.value && !strIn o.value a.value
+
+def GS.ncClash : GS → GS → Bool
+  | .atom a, .atom o => Generic.ncClash a o
+  | _, _ => false
+
+/-- the top-level members: `self` or `self.constraints` of a union -/
+def GC.members : GC → List GS
+  | .s c => [c]
+  | .union ms => ms
+
+/-- no pair of top-level members of the two operands hits that call site -/
+def GC.ncCompat (a b : GC) : Bool :=
+  a.members.all fun m => b.members.all fun n => !GS.ncClash m n
+
 /-! ## parser (`generic/parser.py`) -/
 
 /-- `str.strip()` -/
